@@ -464,13 +464,19 @@ def connected(backend=None, keyspace="ks", protocol_version=4):
     session = FakeSession(backend, keyspace=None, protocol_version=protocol_version)
     saved_udts = dict((k, dict(v)) for k, v in conn.udt_by_keyspace.items())
     saved_default_ks = models.DEFAULT_KEYSPACE
-    conn.register_connection(CONNECTION, session=session)
+    saved_default = conn._connections.get(conn.DEFAULT_CONNECTION)
+    saved_globals = (conn.cluster, conn.session)
+    # also the default connection: a BatchQuery fed only by query sets executes on the default connection
+    conn.register_connection(CONNECTION, session=session, default=True)
     try:
         with warnings.catch_warnings():
             warnings.simplefilter("ignore")
             yield session
     finally:
         conn.unregister_connection(CONNECTION)
+        if saved_default is not None:
+            conn._connections[conn.DEFAULT_CONNECTION] = saved_default
+        conn.cluster, conn.session = saved_globals
         conn.udt_by_keyspace.clear()
         for k, v in saved_udts.items():
             conn.udt_by_keyspace[k].update(v)
